@@ -444,6 +444,7 @@ def refWrite (bit : Bool) (o : ObjId) (a : AttrId) (v : Option Nat) (st : St) : 
 
 /-- `Attribute.__set__(obj=o, new_val=None, undo_funcs)` -/
 def attrClearRev (sch : Schema) (o : ObjId) (a : AttrId) (st : St) : Res :=
+  if !(o < st.store.n) then .err .noSuchObject st else                      -- (not expressible in Python: a reference to no object)
   if (st.store.row o).status.isDel then .err .objectDeleted st else         -- throw_object_was_deleted
   match sch.decl a, sch.decl ((sch.decl a).map (·.rev) |>.getD a) with
   | some d, some rd =>
@@ -459,6 +460,7 @@ def attrClearRev (sch : Schema) (o : ObjId) (a : AttrId) (st : St) : Res :=
 
 /-- `Attribute.__set__(obj=o, new_val=x, undo_funcs)`, `x` not None -/
 def attrSetRev (sch : Schema) (o : ObjId) (a : AttrId) (x : ObjId) (st : St) : Res :=
+  if !(o < st.store.n) then .err .noSuchObject st else
   if (st.store.row o).status.isDel then .err .objectDeleted st else
   match sch.decl a, sch.decl ((sch.decl a).map (·.rev) |>.getD a) with
   | some d, some rd =>
@@ -801,6 +803,19 @@ def collRemove (sch : Schema) (fuel : Nat) (o : ObjId) (c : AttrId) (items : Lis
 
 def lookupArg (vals : List (AttrId × Arg)) (a : AttrId) : Option Arg := (vals.find? fun p => p.1 == a).map (·.2)
 
+/-- `_get_from_identity_map_(pkval, 'created')`: a fresh object row (`_vals_ = {}`, status `created`) enters `cache.objects`
+    and, if it has a primary key, the primary-key index -/
+def Store.alloc (s : Store) (e : EntId) (pk : Option Nat) : Store :=
+  let s1 : Store := { s with n := s.n + 1, row := fun p => if p = s.n then { ent := e, status := .created, pk := pk } else s.row p }
+  match pk with
+  | some p => { s1 with pkIdx := set2 s.pkIdx e p (some s.n), seen := .pk e p :: s.seen }
+  | none => s1
+
+/-- `cache_index.get(pkval)` of `_get_from_identity_map_` finds an object -/
+def pkTaken (s : Store) (e : EntId) : Option Nat → Bool
+  | some p => (s.pkIdx e p).isSome
+  | none => false
+
 /-- `Entity.__init__` -/
 def create (sch : Schema) (fuel : Nat) (e : EntId) (pk : Option Nat) (vals : List (AttrId × Arg)) (st : St) : Res :=
   let attrs := sch.attrsOf e
@@ -819,13 +834,9 @@ def create (sch : Schema) (fuel : Nat) (e : EntId) (pk : Option Nat) (vals : Lis
   let comps := sch.ckeysOf e
   if comps.any (fun k => match tuple ((sch.keyAttrs k).map v) with | some vs => (s.cidx k vs).isSome | none => false) then .err .cacheIndexError st else
   -- _get_from_identity_map_(pkval, 'created', undo_funcs, obj_to_init=obj)
-  if (match pk with | some p => (s.pkIdx e p).isSome | none => false) then .err .cacheIndexError st else
+  if pkTaken s e pk then .err .cacheIndexError st else
   let id := s.n
-  let s1 := { s with n := id + 1, row := fun p => if p = id then { ent := e, status := .created, pk := pk } else s.row p }
-  let s1 := match pk with
-    | some p => { s1 with pkIdx := set2 s1.pkIdx e p (some id), seen := .pk e p :: s1.seen }
-    | none => s1
-  let st1 := (st.setStore s1).log (.created id e pk)
+  let st1 := (st.setStore (s.alloc e pk)).log (.created id e pk)
   let body := iter (fun (a : AttrId) (st : St) =>
     match sch.decl a with
     | some d =>
